@@ -513,6 +513,11 @@ def pool_check(mod, tier, seed):
                 lc_fail = "leanchecker rejected a compiled module: " + lout[-300:]
         hok, hout, _, binpath = common.build_harness()
         res.add_obligation("harness-builds-against-working-tree", hok, "tie", "" if hok else hout[-800:])
+        if getattr(mod, "NEEDS_BINARY", False):
+            cok, cout, _, _ = common.build_binary()
+            res.add_obligation("goalign-binary-builds-from-working-tree", cok, "tie", "" if cok else cout[-800:])
+            hok = hok and cok
+            hout = hout + cout
         rok, rout, rt, racebin = (False, "", 0, None)
         if hok:
             rok, rout, rt, racebin = common.build_harness(race=True)
